@@ -1119,6 +1119,60 @@ func runC16(c *CaseCtx) *CaseResult {
 					}
 					_, _, nerr := it.Next()
 					w.logOp("Next after the next key was removed: failed=%v", nerr != nil)
+					// (c) the caller's hash-input provider and, separately, the caller's comparator fail inside a lookup, an
+					// update and a removal (each holds a pooled digester at that moment)
+					probe := exp[len(exp)/2].k
+					for _, which := range []string{"hip", "cmp"} {
+						for _, op := range []string{"get", "set", "remove"} {
+							w.cb.Reset()
+							if which == "hip" {
+								w.cb.FailHipAt = 1
+							} else {
+								w.cb.FailCmpAt = 1
+							}
+							var oerr error
+							switch op {
+							case "get":
+								_, oerr = root.Map.Get(w.cb.Compare, w.cb.HashInput, scalarValue(probe))
+							case "set":
+								_, oerr = root.Map.Set(w.cb.Compare, w.cb.HashInput, scalarValue(probe), scalarValue(&Node{Kind: KU8, U: 1}))
+							default:
+								_, _, oerr = root.Map.Remove(w.cb.Compare, w.cb.HashInput, scalarValue(probe))
+							}
+							fired := w.cb.HipFailed || w.cb.CmpFailed
+							w.cb.Reset()
+							if !fired {
+								return "", viol("harness", "the injected %s fault was never reached by Map.%s", which, op)
+							}
+							if oerr == nil {
+								return "", viol("parallel-error", "Map.%s returned nil although the caller's %s failed", op, which)
+							}
+							w.logOp("%s with failing %s: fired=%v failed=%v", op, which, fired, oerr != nil)
+						}
+					}
+					if err := w.CheckDeep(); err != nil {
+						return "", err
+					}
+					// (d) a batch build whose element stream fails half-way (array and map)
+					k := 0
+					_, berr := atree.NewArrayFromBatchData(w.st, w.addr, TI{ID: 3}, func() (atree.Value, error) {
+						if k++; k > 40 {
+							return nil, ErrCallback
+						}
+						return tu.Uint64Value(uint64(k)), nil
+					})
+					k = 0
+					_, merr := atree.NewMapFromBatchData(w.st, w.addr, atree.NewDefaultDigesterBuilder(), TI{ID: 3}, w.cb.Compare, w.cb.HashInput, root.Map.Seed(),
+						func() (atree.Value, atree.Value, error) {
+							if k++; k > 25 {
+								return nil, nil, ErrCallback
+							}
+							return tu.Uint64Value(uint64(k)), tu.Uint64Value(uint64(k)), nil
+						})
+					if berr == nil || merr == nil {
+						return "", viol("parallel-error", "batch build with a failing element stream returned nil (array %v, map %v)", berr, merr)
+					}
+					w.logOp("batch builds with a failing stream: %v / %v", berr != nil, merr != nil)
 				}
 				if i%55 == 0 {
 					if err := w.CheckTree(true); err != nil {
